@@ -291,7 +291,7 @@ def r3(ctx, rep, prog):
     from .. import guards
     ok = False
     why = 'no all-variants-are-unit test found'
-    for fr in unit[0]['guard']:
+    for fr in guards.normalize_frames(unit[0]['guard']):
         if fr.get('k') != 'if':
             continue
         cond, neg = fr['c'], bool(fr.get('neg'))
